@@ -16,8 +16,13 @@
       scheduled at completion, in registration order, each exactly once);
     * `asyncio.wait` is its counter (`hcount`): set to the number of awaited tasks, decremented by
       each `waitH` callback; handle_client resumes only at zero;
-    * `Semaphore.acquire` succeeds only while fewer than `size` tasks hold that address' semaphore
-      (the one remaining assumed fact).
+    * `asyncio.Semaphore` (CPython 3.12) is transcribed: a counter per address (`semv`) and a FIFO of
+      waiters (`waiters`); `acquire` takes a slot at once when the semaphore is not locked, otherwise
+      queues; `release` increments the counter and wakes the first queued waiter whose future is still
+      pending, handing it the slot (counter decremented on its behalf: pc `semWoken`); a cancellation
+      request marks a queued waiter's future cancelled (`creq`: pc `semCancelled`) — when that task
+      resumes it leaves the queue WITHOUT touching the counter; a waiter that had already been handed
+      a slot when the cancellation arrives gives the slot back and wakes the next one.
   Any interleaving = any choice of the next runnable task action or callback.
   `handle_client` itself is assumed not to be cancelled from outside.
   Hook counters (`nCC`, `nSC`, …) are ghost state: they count the `hook` labels of the trace.
@@ -45,6 +50,7 @@ inductive Act where
   | hook (h : Hk)                           -- handle_hook entered: the hook fires
   | hookret (r : Res) (kill : Bool)         -- handle_hook returns (ok) or is cancelled; kill: `.error` was set
   | semwait | semacq | semcancel            -- `async with self.max_conns[address]`
+  | creq                                    -- Task.cancel() while the task is queued on the semaphore
   | connret (r : Res)                       -- asyncio.open_connection returns / raises OSError / is cancelled
   | ev (k : EvKind) (cmds : List Cmd)       -- server_event(k) and the commands the layer returned
   | readret (r : Res)                       -- reader.read returns data / eof / raises OSError / is cancelled
@@ -78,6 +84,8 @@ def Mode.held : Mode → Bool
 /-- program counter of one open_connection task -/
 inductive PC where
   | created | started | inSC | preSem | inSem
+  | semCancelled        -- queued; its future has been cancelled, the task has not resumed yet
+  | semWoken            -- queued; a releaser has handed it a slot (future result set), not resumed yet
   | preSE (m : Mode) | inSE (m : Mode) | preEvErr (m : Mode)
   | inConn | preSD | inSD | preEvOk | inRead | preEvData | afterData | preEvClosed | preClose
   | preSX | inSX | preRel | finishing | done
@@ -107,9 +115,10 @@ def wopen : PC → Bool
   | .preSD | .inSD | .preEvOk | .inRead | .preEvData | .afterData | .preEvClosed | .preClose => true
   | _ => false
 
-/-- one action of an open_connection task; `free`: its address' semaphore has a free slot.
-    Returns the new task state and the commands the layer returned (if the action is a server_event). -/
-def stepS (c : Conn) (a : Act) (free : Bool) : Option (Conn × List Cmd) :=
+/-- one action of an open_connection task; `ok`: the semaphore's `locked()` test agrees with the action
+    (see `semGuard`).  Returns the new task state and the commands the layer returned (if the action is a
+    server_event).  What the action does to the semaphore itself is `semEffect`. -/
+def stepS (c : Conn) (a : Act) (ok : Bool) : Option (Conn × List Cmd) :=
   match c.pc, a with
   | .created, .start => some ({ c with pc := .started }, [])
   | .created, .fin => some ({ c with pc := .done }, [])                       -- cancelled before its first step
@@ -118,10 +127,13 @@ def stepS (c : Conn) (a : Act) (free : Bool) : Option (Conn × List Cmd) :=
   | .inSC, .hookret .ok false => some ({ c with pc := .preSem }, [])
   | .inSC, .hookret .ok true => some ({ c with pc := .preSE .kill }, [])
   | .inSC, .hookret .cancel _ => some ({ c with pc := .preSE .canc }, [])
-  | .preSem, .semwait => some ({ c with pc := .inSem }, [])
-  | .preSem, .semacq => if free then some ({ c with pc := .inConn }, []) else none
-  | .inSem, .semacq => if free then some ({ c with pc := .inConn }, []) else none
-  | .inSem, .semcancel => some ({ c with pc := .preSE .canc }, [])
+  | .preSem, .semwait => if ok then some ({ c with pc := .inSem }, []) else none      -- locked(): queue
+  | .preSem, .semacq => if ok then some ({ c with pc := .inConn }, []) else none     -- not locked(): take a slot
+  | .inSem, .creq => some ({ c with pc := .semCancelled }, [])
+  | .semWoken, .creq => some ({ c with pc := .semWoken }, [])                        -- future already done
+  | .semWoken, .semacq => some ({ c with pc := .inConn }, [])
+  | .semWoken, .semcancel => some ({ c with pc := .preSE .canc }, [])
+  | .semCancelled, .semcancel => some ({ c with pc := .preSE .canc }, [])
   | .preSE m, .hook .se => some ({ c with pc := .inSE m, nSE := c.nSE + 1 }, [])
   | .inSE m, .hookret .ok _ => some ({ c with pc := .preEvErr m }, [])
   | .inSE .kill, .hookret .cancel _ => some ({ c with pc := .finishing }, [])
@@ -217,11 +229,12 @@ structure St where
   nCC : Nat
   nCD : Nat
   lateOpen : Bool        -- ghost: a layer asked for a connection after handle_client had collected the transports to wait for
-  deriving DecidableEq, Repr
+  semv    : Nat → Nat         -- asyncio.Semaphore._value of `max_conns[address]` (defaultdict: `size` until first used)
+  waiters : Nat → List Nat    -- asyncio.Semaphore._waiters: queued open_connection tasks, FIFO
 
 def init (size : Nat) : St :=
   { size, hpc := .h0, cpc := .absent, centry := true, cwopen := true, ccbs := [], hcount := 0, conns := [], hooks := [],
-    nCC := 0, nCD := 0, lateOpen := false }
+    nCC := 0, nCD := 0, lateOpen := false, semv := fun _ => size, waiters := fun _ => [] }
 
 def isLate : HPC → Bool
   | .final | .returned => true
@@ -250,10 +263,60 @@ def applyCmds (s : St) : List Cmd → Option St
 def holdsAt (a : Nat) (c : Conn) : Bool := holding c.pc && c.addr == some a
 def openAt (a : Nat) (c : Conn) : Bool := wopen c.pc && c.addr == some a
 
-def semFree (s : St) (c : Conn) : Bool :=
+def wokenAt (a : Nat) (c : Conn) : Bool := (c.pc == .semWoken) && c.addr == some a
+
+def upd {β : Type} (f : Nat → β) (k : Nat) (v : β) : Nat → β := fun x => if x = k then v else f x
+
+/-- `Semaphore.locked()`: no free slot, or somebody whose future is not cancelled is queued -/
+def locked (s : St) (ad : Nat) : Bool :=
+  s.semv ad == 0 ||
+    (s.waiters ad).any (fun j => match s.conns[j]? with | some d => d.pc != .semCancelled | none => false)
+
+/-- `acquire()` takes the fast path exactly when the semaphore is not locked -/
+def semGuard (s : St) (c : Conn) (a : Act) : Bool :=
   match c.addr with
-  | some a => s.conns.countP (holdsAt a) < s.size
-  | none => false
+  | none => true
+  | some ad =>
+    match c.pc, a with
+    | .preSem, .semacq => !locked s ad
+    | .preSem, .semwait => locked s ad
+    | _, _ => true
+
+/-- the first queued waiter whose future is still pending -/
+def firstWaiting (conns : List Conn) : List Nat → Option Nat
+  | [] => none
+  | j :: js =>
+    match conns[j]? with
+    | some d => if d.pc = .inSem then some j else firstWaiting conns js
+    | none => firstWaiting conns js
+
+/-- `_wake_up_next()` (called with a free slot): hand the slot to the first pending waiter -/
+def wakeNext (s : St) (ad : Nat) : St :=
+  if s.semv ad = 0 then s else
+  match firstWaiting s.conns (s.waiters ad) with
+  | none => s
+  | some j =>
+    match s.conns[j]? with
+    | some d => { s with semv := upd s.semv ad (s.semv ad - 1), conns := s.conns.set j { d with pc := .semWoken } }
+    | none => s
+
+/-- what an action of task `i` (state `c` before the action) does to its address' semaphore -/
+def semEffect (s : St) (i : Nat) (c : Conn) (a : Act) : St :=
+  match c.addr with
+  | none => s
+  | some ad =>
+    match c.pc, a with
+    | .preSem, .semwait => { s with waiters := upd s.waiters ad (s.waiters ad ++ [i]) }
+    | .preSem, .semacq => { s with semv := upd s.semv ad (s.semv ad - 1) }
+    | .semWoken, .semacq =>                -- resumed with the slot: leave the queue; `if self._value > 0: wake next`
+      wakeNext { s with waiters := upd s.waiters ad ((s.waiters ad).erase i) } ad
+    | .semCancelled, .semcancel =>         -- cancelled while queued: leave the queue, the counter is not touched
+      { s with waiters := upd s.waiters ad ((s.waiters ad).erase i) }
+    | .semWoken, .semcancel =>             -- cancelled after the hand-off: give the slot back, wake the next one
+      wakeNext { s with waiters := upd s.waiters ad ((s.waiters ad).erase i),
+                        semv := upd s.semv ad (s.semv ad + 1) } ad
+    | .preRel, .semrel => wakeNext { s with semv := upd s.semv ad (s.semv ad + 1) } ad
+    | _, _ => s
 
 /-- `asyncio.wait([x.handler for x in self.transports.values() if x.handler])` registers its completion
     callback on every task whose entry is still in transports -/
@@ -286,8 +349,8 @@ def step (s : St) : Label → Option St
   | .act (.S i) a =>
     match s.conns[i]? with
     | some c =>
-      match stepS c a (semFree s c) with
-      | some (c', cmds) => applyCmds { s with conns := s.conns.set i c' } cmds
+      match stepS c a (semGuard s c a) with
+      | some (c', cmds) => applyCmds (semEffect { s with conns := s.conns.set i c' } i c a) cmds
       | none => none
     | none => none
   | .act (.K i) a =>
